@@ -646,6 +646,48 @@ static void history_phases()
         g_sink_rotation = 0;
         g_light_sinks = false;
     });
+    // text ARGUMENTS (const char*, string_view) of 32..96 bytes at every start alignment 0..15, exact end of the block behind them,
+    // with their only non-ASCII character at every position of the last 16 bytes (and of the first 16): a sink that checks
+    // "is this chunk ASCII?" a word at a time with a wrong prologue / tail for a pointer that is not 8-byte aligned widens the
+    // bytes of that character one by one instead of decoding them, while ST::format and the narrow sinks stay right
+    vrt::require("arg_alignment.calls", 10000);
+    vrt::require("arg_alignment.argument_not_8_byte_aligned", 5000);
+    vrt::phase("arg_alignment", vrt::tier_count(130, 1300), [&](uint64_t i, Rng &r) {
+        g_light_sinks = true;
+        const size_t len = 32 + static_cast<size_t>(i % 65) + (i >= 130 ? 97 * (i / 130) : 0);
+        const unsigned width = 2 + static_cast<unsigned>((i / 65) % 3);
+        static const char *const mb[] = {"\xc2\xb0", "\xe2\x82\xac", "\xf0\x9f\x98\x80"};
+        Values v;
+        random_values(r, v);
+        for (size_t a = 0; a < 16; ++a) {
+            for (size_t k = 0; k < 32; ++k) {
+                // position of the character: k < 16 counts back from the end, otherwise forward from the start
+                const size_t pos = k < 16 ? len - width - k : k - 16;
+                if (pos + width > len) continue;
+                S t(len, 'a');
+                for (size_t j = 0; j < len; ++j) t[j] = static_cast<char>('a' + (j * 7 + i) % 26);
+                t.replace(pos, width, mb[width - 2]);
+                set_texts_narrow(v, t);
+                char *b1 = static_cast<char *>(malloc(a + len + 1)), *b2 = static_cast<char *>(malloc(a + len));
+                if (!b1 || !b2) _exit(98);
+                memset(b1, 'z', a); memset(b2, 'z', a);
+                memcpy(b1 + a, t.data(), len); b1[a + len] = 0;
+                memcpy(b2 + a, t.data(), len);
+                v.cstr = b1 + a;
+                v.sv = std::string_view(b2 + a, len);
+                g_sink_rotation = static_cast<unsigned>((a + k) % 7);
+                sink_case(2, v, "{}");
+                sink_case(32, v, k % 2 ? "[{}]" : "{}");
+                v.cstr = v.text.c_str();
+                v.sv = std::string_view(v.svback).substr(1, t.size());
+                free(b1); free(b2);
+                vrt::count("arg_alignment.calls", 2);
+                if (a % 8) vrt::count("arg_alignment.argument_not_8_byte_aligned", 2);
+            }
+        }
+        g_sink_rotation = 0;
+        g_light_sinks = false;
+    });
     vrt::case_cpu_budget() = usual_budget;
     g_sink_rotation = 0;
     g_light_sinks = false;
